@@ -640,6 +640,9 @@ func init() {
 				od.Floor("isSame_absent_comparisons", 9)
 				od.Floor("receiver_iterator_consumers", 1)
 				res.Merge(od)
+				mi := graphinv.RunMapInit(c, "./graph/simple", "./graph/multi")
+				mi.Floor("inner_map_installations", 16)
+				res.Merge(mi)
 				rl := graphinv.RunRelit(c, "./graph/simple", "./graph/multi")
 				rl.Floor("receiver_rebuilding_literals", 2)
 				res.Merge(rl)
@@ -728,6 +731,9 @@ func init() {
 			na := dspx.RunNoAlias(def)
 			na.Floor("slice_returning_methods", 9)
 			res.Merge(na)
+			gs := globalx.RunDecls(def, core.Pkgs("./dsp/fourier/...", "./dsp/transform", "./dsp/window"), nil)
+			gs.Floor("packages", 4)
+			res.Merge(gs)
 			cp := swapx.Run(def, core.Pkgs("./dsp/..."))
 			cp.Floor("complex_constructions", 20)
 			res.Merge(cp)
@@ -807,6 +813,8 @@ func dump(argv []string) {
 		res = config.Run(config.Matrix(tier), pk)
 	case "graphrelit":
 		res = graphinv.RunRelit(def, argv[1:]...)
+	case "graphmapinit":
+		res = graphinv.RunMapInit(def, argv[1:]...)
 	case "graphexpose":
 		res = graphinv.RunExpose(def)
 	case "graphorder":
@@ -859,6 +867,8 @@ func dump(argv []string) {
 		res = initx.RunComplete(def, argv[1:]...)
 	case "mataccess":
 		res = matargs.RunAccess(def)
+	case "globalstate":
+		res = globalx.RunDecls(def, core.Pkgs(argv[1:]...), nil)
 	case "betascale":
 		res = flagx.RunBetaScale(def, core.Pkgs(argv[1:]...))
 	case "guardop":
